@@ -228,6 +228,9 @@ pub struct ConnState {
     pending_flag: bool,
     /// bitmask of injected faults that actually fired (1 read, 2 write, 4 flush, 8 shutdown)
     pub fired: u32,
+    /// byte-level events are kept out of the trace (TLS: ciphertext and its exact length
+    /// depend on entropy the simulation does not own)
+    pub quiet: bool,
 }
 
 #[derive(Clone)]
@@ -316,7 +319,9 @@ impl EpConn {
         st.out.buf.extend(&data[..n]);
         st.out.written += n as u64;
         st.out.hash_written = fnv64_from(st.out.hash_written, &data[..n]);
-        trace(Ev::TcpWrite, st.id, n as u64, st.out.hash_written);
+        if !st.quiet {
+            trace(Ev::TcpWrite, st.id, n as u64, st.out.hash_written);
+        }
         st.out.wake_reader();
         Ok(n)
     }
@@ -338,7 +343,9 @@ impl os::TcpConn for EpConn {
         }
         if st.inp.buf.is_empty() {
             if st.inp.fin {
-                trace(Ev::TcpRead, st.id, 0, 0);
+                if !st.quiet {
+            trace(Ev::TcpRead, st.id, 0, 0);
+        }
                 return Poll::Ready(Ok(()));
             }
             st.inp.rd_waker = Some(cx.waker().clone());
@@ -376,7 +383,9 @@ impl os::TcpConn for EpConn {
         }
         st.inp.buf.drain(..n);
         st.inp.read += n as u64;
-        trace(Ev::TcpRead, st.id, n as u64, st.inp.read);
+        if !st.quiet {
+            trace(Ev::TcpRead, st.id, n as u64, st.inp.read);
+        }
         st.inp.wake_writer();
         Poll::Ready(Ok(()))
     }
@@ -401,14 +410,18 @@ impl os::TcpConn for EpConn {
             && st.rng.chance(1, st.faults.spurious_wouldblock)
         {
             count("spurious_wouldblock");
+            if !st.quiet {
             trace(Ev::TcpWouldBlock, st.id, 1, 0);
+        }
             return Err(ErrorKind::WouldBlock.into());
         }
         let r = self.do_write(st, data);
         if let Err(e) = &r {
             if e.kind() == ErrorKind::WouldBlock {
                 count("tcp_buffer_full");
-                trace(Ev::TcpWouldBlock, st.id, 0, 0);
+                if !st.quiet {
+            trace(Ev::TcpWouldBlock, st.id, 0, 0);
+        }
             }
         }
         r
@@ -434,7 +447,9 @@ impl os::TcpConn for EpConn {
     fn poll_flush(&self, _cx: &mut Context<'_>) -> Poll<io::Result<()>> {
         let mut g = self.0.lock().unwrap();
         let st = &mut *g;
-        trace(Ev::TcpFlush, st.id, 0, 0);
+        if !st.quiet {
+            trace(Ev::TcpFlush, st.id, 0, 0);
+        }
         if let Some(k) = st.faults.flush_err.take() {
             count("tcp_flush_error");
             st.fired |= 4;
@@ -544,7 +559,9 @@ impl PeerConn {
             let n = st.out.buf.len().min(max.max(1));
             let v: Vec<u8> = st.out.buf.drain(..n).collect();
             st.out.read += n as u64;
+            if !st.quiet {
             trace(Ev::PeerRead, st.id, n as u64, st.out.read);
+        }
             st.out.wake_writer();
             Poll::Ready(PeerRead::Data(v))
         })
@@ -576,7 +593,9 @@ impl PeerConn {
                 st.inp.buf.extend(&data[off..off + n]);
                 st.inp.written += n as u64;
                 st.inp.hash_written = fnv64_from(st.inp.hash_written, &data[off..off + n]);
-                trace(Ev::PeerWrite, st.id, n as u64, st.inp.hash_written);
+                if !st.quiet {
+            trace(Ev::PeerWrite, st.id, n as u64, st.inp.hash_written);
+        }
                 st.inp.wake_reader();
                 Poll::Ready(Ok(n))
             })
@@ -650,6 +669,10 @@ impl PeerConn {
         self.0.lock().unwrap().fired
     }
 
+    pub fn set_quiet(&self, q: bool) {
+        self.0.lock().unwrap().quiet = q;
+    }
+
     pub fn set_faults(&self, f: EpFaults) {
         self.0.lock().unwrap().faults = f;
     }
@@ -691,7 +714,9 @@ impl tokio::io::AsyncRead for PeerIo {
         }
         st.out.buf.drain(..n);
         st.out.read += n as u64;
-        trace(Ev::PeerRead, st.id, n as u64, st.out.read);
+        if !st.quiet {
+            trace(Ev::PeerRead, st.id, n as u64, st.out.read);
+        }
         st.out.wake_writer();
         Poll::Ready(Ok(()))
     }
@@ -721,7 +746,9 @@ impl tokio::io::AsyncWrite for PeerIo {
         st.inp.buf.extend(&data[..n]);
         st.inp.written += n as u64;
         st.inp.hash_written = fnv64_from(st.inp.hash_written, &data[..n]);
-        trace(Ev::PeerWrite, st.id, n as u64, st.inp.hash_written);
+        if !st.quiet {
+            trace(Ev::PeerWrite, st.id, n as u64, st.inp.hash_written);
+        }
         st.inp.wake_reader();
         Poll::Ready(Ok(n))
     }
@@ -1243,6 +1270,7 @@ impl Inner {
             outbound,
             pending_flag: false,
             fired: 0,
+            quiet: false,
         }));
         if outbound {
             self.census.tcp_out_open += 1;
